@@ -70,7 +70,7 @@ def replay_state(chk, st, cplx, expo):
                 if bad:
                     chk.violation('C14:%s:%s:values' % (cls.__name__, mode), '%s(x=%s, %d): %s' % (cls.__name__, xa.tolist(), p, bad), case)
             # fast (Marple) recursions: defined when every lower-order problem is well posed
-            if generic and expE > 0 and np.all(np.abs(xa) > 0):
+            if generic and expE > 0:
                 ok, res = call_guard(fast, xa.astype(complex), p)
                 if ok and which == 'cov':
                     af, pf = res[0], res[1]
@@ -78,7 +78,11 @@ def replay_state(chk, st, cplx, expo):
                 elif ok:
                     af, pf = res[0], res[1]
                     perr = expE / (2.0 * (N - p))
-                if not ok or not finite(af, pf):
+                if not ok:
+                    # every lower-order problem is well posed with a positive error: the recursion is defined
+                    chk.violation('C14:%s:%s:raises' % (fast.__name__, mode),
+                                  '%s(x=%s, %d) raises %r although every lower-order least-squares problem is well posed' % (fast.__name__, xa.tolist(), p, res), case)
+                elif not finite(af, pf):
                     chk.count('covar-' + mode, fast.__name__ + '-undefined')
                 else:
                     af = np.asarray(af)
@@ -138,9 +142,17 @@ def obs_events(chk):
             N = int(rng.choice(sizes))
             cplx = bool(rng.randint(2))
         p = int(rng.randint(1, min(N // 2, 20) + 1))
-        kind = int(rng.randint(3))
+        kind = int(rng.randint(4))
         t = np.arange(N)
-        if kind == 2:      # noiseless sum of p exponentials (complex) / p//2 sinusoids (real)
+        if kind == 3:
+            # two exponentials / one sinusoid in weak noise, fitted with more coefficients than components:
+            # full rank but ill-conditioned regressors
+            N = max(N, 33)
+            t = np.arange(N)
+            p = int(rng.choice([4, 6, 8]))
+            x = np.cos(0.9 * t + 0.2) + (1j * np.sin(0.9 * t + 0.2) + np.exp(1.7j * t) if cplx else 0.5 * np.cos(1.7 * t))
+            x = x + 10 ** rng.uniform(-7.5, -4) * (rng.randn(N) + (1j * rng.randn(N) if cplx else 0))
+        elif kind == 2:      # noiseless sum of p exponentials (complex) / p//2 sinusoids (real)
             pp = min(p, 6)
             if cplx:
                 f = rng.choice(np.arange(1, 40), pp, replace=False) / 41.0
@@ -171,6 +183,11 @@ def obs_events(chk):
                 ev['orth_dev'] = obs.q(np.max(np.abs(X[:, 1:].conj().T @ resid)) / sc)
                 ev['err_dev'] = obs.q(abs(e - np.real(np.vdot(resid, resid))) / sc)
                 ev['len_ok'] = bool(len(a) == p)
+                # uniqueness: the coefficients of the full-rank problem, to the accuracy its conditioning allows
+                cond = float(np.linalg.cond(X[:, 1:])) if len(a) == p else 0.0
+                ls = np.linalg.lstsq(-X[:, 1:], X[:, 0], rcond=None)[0] if len(a) == p else a
+                ev['cond_k'] = obs.q(cond, 1e3)
+                ev['coef_dev'] = obs.q(np.linalg.norm(a - ls) / max(np.linalg.norm(ls), 1e-300)) if len(a) == p else 0
                 if kind == 2:
                     roots = np.roots(np.concatenate(([1.0], a)))
                     truth = np.exp(2j * np.pi * f) if cplx else np.concatenate((np.exp(2j * np.pi * f), np.exp(-2j * np.pi * f)))
@@ -181,7 +198,9 @@ def obs_events(chk):
                     ev['err_rel'] = 0
                 okf, rf = call_guard(fast, x.astype(complex), p)
                 overdetermined = N - p > p + 1
-                if okf and finite(rf[0][:p], rf[1]) and kind != 2 and overdetermined:
+                # (the fast recursions are compared on well-conditioned problems only: they are recursions in the order
+                #  and lose digits with every ill-conditioned lower-order stage)
+                if okf and finite(rf[0][:p], rf[1]) and kind not in (2, 3) and overdetermined:
                     af = np.asarray(rf[0])
                     per = e / (N - p) if which == 'cov' else e / (2.0 * (N - p))
                     ev['fast_dev'] = obs.q(max(np.max(np.abs(af[:p] - a)) / max(1.0, np.max(np.abs(a))), abs(rf[1] - per) / max(abs(per), 1e-300)))
@@ -191,9 +210,9 @@ def obs_events(chk):
                     ev['fast_dev'] = 0
                     ev['fast_tail_zero'] = True
                     # noiseless data or a (nearly) square system: the error vanishes and the fast recursion is not defined
-                    ev['fast_defined'] = bool(kind == 2 or not overdetermined)
+                    ev['fast_defined'] = bool(kind in (2, 3) or not overdetermined)
             else:
-                ev.update(orth_dev=0, err_dev=0, len_ok=False, freq_dev=0, err_rel=0, fast_dev=0, fast_tail_zero=False, fast_defined=False)
+                ev.update(orth_dev=0, err_dev=0, len_ok=False, cond_k=0, coef_dev=0, freq_dev=0, err_rel=0, fast_dev=0, fast_tail_zero=False, fast_defined=False)
             batch.add(ev, {'N': N, 'p': p, 'cplx': cplx, 'kind': kind, 'seed': chk.seed, 'rep': rep})
     obs.validate(chk, batch, 'obs-large-N', lambda ev, cl: 'C14:OBS:%s:%s:%s' % (ev['which'], cl, 'complex' if ev['cplx'] else 'real'),
                  lambda ev, cl: '%s N=%d order=%d: clause "%s" fails: %s' % (ev['which'], ev['N'], ev['p'], cl, ev))
